@@ -105,6 +105,8 @@ type Exec struct {
 	dirty  map[string]bool
 	sorts  []sortEvent
 	rebinds map[ssa.Value][]rebind
+	invRecords []invRecord
+	extraInst  []Term
 	closures []*ssa.Function // function constants materialised by this activation
 	mapLits  map[*cell][][2]Term // straight-line map literals: the (key, value) pairs stored so far
 }
